@@ -20,7 +20,7 @@ import (
 func init() {
 	register(&property{
 		ID:          "C04",
-		Explanation: "Static decision of the crash- and allocation-safety obligations of all code that runs per connection (everything reachable from Match/Handle/Select/handle in the module): (R1) every index and slice operation is an obligation 0 <= i < len / lo <= hi <= len; each is discharged by the bounds prover (difference-constraint reasoning over go/ssa from type widths, make/slice definitions, io.Reader/copy/IndexByte contracts, loop-index induction and the dominating branch conditions) or must be listed, with a reason, in the reviewed table specs/audited_bounds.json - a site that is neither proven nor audited is a violation naming function and expression; (R2) every make() with a non-constant size has a proven constant upper bound of at most 64 KiB + 1 KiB; (R3) dynamic-type agreement: every unchecked type assertion on a value taken from the connection's variable table / context / replacer under a constant key has, for that key, only producers of an identical or implementing type; (R4) every division, modulo and rand.Intn with a non-constant operand has the operand proven >= 1; (R5) no explicit panic, Must* or log.Fatal* is reachable; (R6) no method is called on a possibly-nil pool slot (path evaluation of the selection policies); (R7) the postgres matcher evaluated path by path for declared lengths 0..16, 8192, 8193, 2^30, 2^32-1 with symbolic content: no out-of-range access, no allocation outside [8, 8192]; (R8) every other unchecked type assertion is justified - boxed from the asserted type, keyed producers, sync.Pool New/Put producers, or path evaluation (the http2 frame loop over every frame sequence). Sites of R1 that the prover cannot discharge but that the scenario tables of C01.R3/R4, C05.R5, C04.R7, C09.R7, C17.R1 evaluate with concrete lengths are discharged by those evaluations (never out of range); the rest must be in the audited table, keyed by home function and indexed object.",
+		Explanation: "Static decision of the crash- and allocation-safety obligations of all code that runs per connection (everything reachable from Match/Handle/Select/handle in the module): (R1) every index and slice operation is an obligation 0 <= i < len / lo <= hi <= len; each is discharged by the bounds prover (difference-constraint reasoning over go/ssa from type widths, make/slice definitions, io.Reader/copy/IndexByte contracts, loop-index induction and the dominating branch conditions) or must be listed, with a reason, in the reviewed table specs/audited_bounds.json - a site that is neither proven nor audited is a violation naming function and expression; (R2) every make() with a non-constant size has a proven constant upper bound of at most 64 KiB + 1 KiB; (R3) dynamic-type agreement: every unchecked type assertion on a value taken from the connection's variable table / context / replacer under a constant key has, for that key, only producers of an identical or implementing type; (R4) every division, modulo and rand.Intn with a non-constant operand has the operand proven >= 1; (R5) no explicit panic, Must* or log.Fatal* is reachable; (R6) no method is called on a possibly-nil pool slot (path evaluation of the selection policies); (R7) the postgres matcher evaluated path by path for declared lengths 0..16, 8192, 8193, 2^30, 2^32-1 with symbolic content: no out-of-range access, no allocation outside [8, 8192]; (R8) every other unchecked type assertion is justified - boxed from the asserted type, keyed producers, sync.Pool New/Put producers, or path evaluation (the http2 frame loop over every frame sequence). Sites of R1 that the prover cannot discharge but that the scenario tables of C01.R3/R4, C02.R7 (route lists of 0..3 routes), C05.R5, C04.R7, C09.R7, C17.R1 evaluate with concrete lengths are discharged by those evaluations (never out of range); the rest must be in the audited table, keyed by home function and indexed object.",
 		NotDecided:  "Panics and allocation inside third-party parsers (dns.Msg.Unpack, http.ReadRequest, hpack, quic-go, proxyprotocol.Parse, go-socks5) - trusted base; nil dereferences in general; stack depth; the audited sites of R1 rest on the stated reason, not on a machine proof.",
 		Run:         runC04,
 	})
@@ -36,6 +36,7 @@ func runC04(c *Ctx, r *Report) {
 	c05R5(c, ev, "T.R5")
 	c09R7(c, ev, "T.R7")
 	c17Read(c, ev)
+	c02Router(c, ev, "T.R2") // the compiled route handler over lists of 0..3 routes and every verdict sequence
 	tmp := newReport("tmp")
 	c10Policies(c, tmp) // also evaluates the policies' divisions with concrete counters
 	c04Bounds(c, r)
@@ -341,11 +342,11 @@ func c04Bounds(c *Ctx, r *Report) {
 				return
 			}
 			if bs := boundsSeen[in]; bs != nil && bs.oob > 0 {
-				r.bad(rule, name, k, c.ipos(in), fmt.Sprintf("out of range in %d of %d concrete evaluations of this site in the scenario tables (see C01.R3/R4, C05.R5, C04.R7, C09.R7, C17.R1)", bs.oob, bs.oob+bs.ok))
+				r.bad(rule, name, k, c.ipos(in), fmt.Sprintf("out of range in %d of %d concrete evaluations of this site in the scenario tables (see C01.R3/R4, C02.R7, C05.R5, C04.R7, C09.R7, C17.R1)", bs.oob, bs.oob+bs.ok))
 				return
 			} else if bs != nil && bs.ok > 0 {
 				evald++
-				r.ok(rule, name, k, c.ipos(in), fmt.Sprintf("decided by path evaluation: in range in all %d concrete evaluations of this site over the scenario tables (orderings of lengths/capacities/cursors) of C01.R3/R4, C05.R5, C04.R7, C09.R7, C17.R1", bs.ok))
+				r.ok(rule, name, k, c.ipos(in), fmt.Sprintf("decided by path evaluation: in range in all %d concrete evaluations of this site over the scenario tables (orderings of lengths/capacities/cursors) of C01.R3/R4, C02.R7, C05.R5, C04.R7, C09.R7, C17.R1", bs.ok))
 				return
 			}
 			akey := name + "|" + siteKey(in)
